@@ -42,9 +42,15 @@ QViol(e) ==
           NonEmpty({Viol("C12", "hover range does not contain the cursor", BadHovers(e))})
           \cup (IF e.hovbad > 0 THEN {[l |-> l, prop |-> "C12", what |-> "empty hover content", n |-> e.hovbad, first |-> 0]} ELSE {})
         ELSE {})
-  \cup (IF e.k = "tokens" /\ Has(e, "tk") THEN NonEmpty({Viol("C13", "tokens unsorted / overlapping / empty / unknown type", BadTokens(e.tk))}) ELSE {})
+  \cup (IF e.k = "tokens" /\ Has(e, "tk") THEN
+          NonEmpty({Viol("C13", "tokens unsorted or overlapping", OverlapTokens(e.tk)),
+                    Viol("C13", "token of a type that is not advertised", UnknownTokens(e.tk))})
+          \cup { Viol("C13", "empty token (" \o t[1] \o ") followed by '" \o t[2] \o "'", {i \in EmptyTokens(e.tk) : <<e.tk[i][1], e.tk[i][4]>> = t}) :
+                   t \in {<<e.tk[i][1], e.tk[i][4]>> : i \in EmptyTokens(e.tk)} }
+        ELSE {})
   \cup (IF e.k = "symbols" /\ Has(e, "sy") THEN
           NonEmpty({Viol("C14", "symbol outside its parent", BadSymbols(e.sy)),
+                    Viol("C14", "symbol with inverted range (end before start), hence not inside its parent", InvertedSymbols(e.sy)),
                     Viol("C14", "sibling symbols out of source order", UnorderedSymbols(e.sy))}) ELSE {})
 
 TInit == SInit /\ l = 1 /\ bad = {}
